@@ -1074,7 +1074,7 @@ var vsStub = []string{"HTTP transport (in-process RoundTripper, handler runs as 
 var c19Engine = &sim.Engine{
 	Prop:  "C19",
 	Level: "exploration",
-	Rule: "one run = a seeded history of uploads (1-3 files each, label histories, coalescing runs, many-label files crossing the insert batch, 11-14 uploads on one day in one run out of ten) through the real client/server/database stack in one process, sequentially or with 2-3 concurrent clients under the seeded scheduler, with drawn clock steps; at every quiescent point queries and listings (0-5 equality/range terms, hand-quoted or built by the front end's query builder) are compared with a reference model; " +
+	Rule: "one run = a seeded history of uploads (1-3 files each, label histories, label-removal lines, repeated benchmark lines, coalescing runs, many-label files crossing the insert batch, values with quotes, apostrophes, blanks and URL-special bytes, some parts in quoted-printable transfer encoding, an optional view-URL base, 11-14 uploads on one day in one run out of ten) through the real client/server/database stack in one process, sequentially or with 2-3 concurrent clients under the seeded scheduler, with drawn clock steps; at every quiescent point queries and listings (0-5 equality/range terms, hand-quoted or built by the front end's query builder) are compared with a reference model; " +
 		"non-trivial = at least one committed upload and one compared query; distinct = distinct (schedule hash, model summary)",
 	Assumptions: []string{
 		"sqlite3 dialect only (MySQL FOR UPDATE/HAVING paths cannot run offline)",
@@ -1095,7 +1095,7 @@ var c19Engine = &sim.Engine{
 var c20Engine = &sim.Engine{
 	Prop:  "C20",
 	Level: "fault_enumeration",
-	Rule: "one run = a seeded history of upload attempts by 1-3 concurrent clients, at most one injected fault per attempt (file without benchmark lines, unexpected form field, client abort between or inside files, request body cut at a byte offset, file-store create/write/short-write/close error (sticky or single-shot; object-store or local-disk personality), auth error), clock jumps/rollover/backward steps, real SQLite lock conflicts; after every phase the all-or-nothing clauses, the file store, the upload-ID history and the C19 query oracle are checked, and a final fault-free upload must succeed; thorough tier additionally enumerates every single-fault position of seeded scenarios; " +
+	Rule: "one run = a seeded history of upload attempts by 1-3 concurrent clients, at most one injected fault per attempt (file without benchmark lines, a line longer than the line buffer, unexpected form field, client abort between or inside files, request body cut at a byte offset, file-store create/write/short-write/close error (sticky or single-shot; object-store or local-disk personality), auth error), clock jumps/rollover/backward steps, real SQLite lock conflicts; after every phase the all-or-nothing clauses, the file store, the upload-ID history and the C19 query oracle are checked, and a final fault-free upload must succeed; thorough tier additionally enumerates every single-fault position of seeded scenarios; " +
 		"non-trivial = at least one committed upload and one compared query; distinct = distinct (schedule hash, model summary)",
 	Assumptions: []string{
 		"response-path faults (lost acknowledgement after a successful commit) are not injected: C20 says nothing about them",
